@@ -677,6 +677,15 @@ def vec_contains(ctx, args, ci, dt):
     return False
 
 
+def vec_index(ctx, args, ci, dt):
+    v = deref(args[0])
+    i = ctx.concretize_int(args[1], 'index')
+    el = ctx.elems_of(v)
+    if i >= len(el):
+        raise panic('index out of bounds: the len is %d but the index is %d' % (len(el), i))
+    return Ref(el[i])
+
+
 def to_vec(ctx, args, ci, dt):
     v = deref(args[0])
     if isinstance(v, S):
@@ -1267,6 +1276,7 @@ def fmt_format(ctx, args, ci, dt):
     if tmpl is None:
         sv = items[0]
         return S(lit=sv.lit, atom=sv.atom, seq=sv.seq, text=True)
+    pieces = []          # python bytes or S (symbolic sequence)
     out = b''
     i = 0
     nxt = 0
@@ -1303,14 +1313,61 @@ def fmt_format(ctx, args, ci, dt):
             kind, val = items[idx].data
             r = display_of(ctx, val) if kind == 'new_display' else None
             if r is None:
-                ok_ = False
+                dv = deref(val)
+                if kind == 'new_display' and isinstance(dv, S) and dv.seq is not None:
+                    pieces.append(out)
+                    pieces.append(dv)
+                    out = b''
+                else:
+                    ok_ = False
             else:
                 out += r
         else:
             raise ctx_unsupported('format template byte 0x%x' % b)
-    if ok_:
+    if ok_ and not pieces:
         return S(lit=out, text=True)
+    if ok_:
+        pieces.append(out)
+        acc = None
+        for pc in pieces:
+            sv = pc if isinstance(pc, S) else S(lit=pc, text=True)
+            if isinstance(pc, bytes) and not pc:
+                continue
+            acc = sv if acc is None else s_concat(acc, sv)
+        return acc if acc is not None else S(lit=b'', text=True)
     return S(label=('formatted-text',), text=True)
+
+
+def bool_to_string(ctx, args, ci, dt):
+    v = deref(args[0])
+    if isinstance(v, bool):
+        return S(lit='true' if v else 'false', text=True)
+    return S(seq=z3.If(v, lit_seq(b'true'), lit_seq(b'false')), text=True)
+
+
+def float_to_string(ctx, args, ci, dt):
+    v = deref(args[0])
+    if isinstance(v, Opaque) and v.tag == 'float' and v.data is not None:
+        return S(lit=repr(v.data), text=True)
+    return S(label=('float-text',), text=True)
+
+
+def it_peekable(ctx, args, ci, dt):
+    it = args[0]
+    return IterV(list(it.items), 'peekable')
+
+
+def it_peek(ctx, args, ci, dt):
+    it = deref(args[0])
+    if not it.items:
+        return none()
+    return some(Ref(Cell(it.items[0])))
+
+
+def it_take(ctx, args, ci, dt):
+    it = args[0]
+    n = ctx.concretize_int(args[1], 'take')
+    return IterV(list(it.items[:n]), it.kind)
 
 
 def int_to_string(ctx, args, ci, dt):
@@ -1570,7 +1627,10 @@ def install(ctx):
         M['<%s as Iterator>::collect' % k] = it_collect
         M['<%s as Iterator>::count' % k] = it_count
         M['<%s as Iterator>::zip' % k] = it_zip
+        M['<%s as Iterator>::peekable' % k] = it_peekable
+        M['<%s as Iterator>::take' % k] = it_take
         M['<%s as DoubleEndedIterator>::next_back' % k] = it_next_back
+    M['Peekable::peek'] = it_peek
     M['[]::iter'] = slice_iter
     M['[]::iter_mut'] = slice_iter_mut
     M['[]::last'] = slice_last
@@ -1652,6 +1712,8 @@ def install(ctx):
     M['Vec::remove'] = vec_remove
     M['Vec::insert'] = vec_insert
     M['Vec::contains'] = vec_contains
+    M['<Vec as Index>::index'] = vec_index
+    M['<Vec as IndexMut>::index_mut'] = vec_index
     M['i64::to_le_bytes'] = i64_to_le_bytes
     M['u64::to_le_bytes'] = i64_to_le_bytes
     M['i64::to_be_bytes'] = i64_to_be_bytes
@@ -1714,6 +1776,9 @@ def install(ctx):
     for t in ['usize', 'i64', 'u64', 'u32', 'i32']:
         M['<%s as ToString>::to_string' % t] = int_to_string
     M['<FieldType as ToString>::to_string'] = opaque_to_string
+    M['<bool as ToString>::to_string'] = bool_to_string
+    M['<f64 as ToString>::to_string'] = float_to_string
+    M['<char as ToString>::to_string'] = opaque_to_string
     M['str::parse'] = str_parse
     M['str::to_lowercase'] = str_to_lowercase
     M['HashMap::drain'] = hm_drain
